@@ -1,5 +1,6 @@
 import HmsProofs.Lemmas.SimPipeline
 import HmsProofs.Lemmas.SimPureFinal
+import HmsProofs.Lemmas.SimStmtFinal
 /-!
 # C01 (part 2) — the compiler and the VM simulate the specification semantics
 
@@ -14,7 +15,10 @@ the Go code and a concrete instance.
 4. `straight_ok`, `straight_fatal`, `straight_runQuantum*`, `compiled_straight_correct` —
    executing that stream on the VM agrees with the specification;
 5. `compileExpr_pure`, `pure_labels_fresh`, `pure_ok`, `pure_fatal`, `compiled_pure_correct` —
-   the same for expressions with `&&`, `||` and `if`/`else` (jumps and labels).
+   the same for expressions with `&&`, `||` and `if`/`else` (jumps and labels);
+6. `compileStmts_frag`, `stmts_correct`, `compiled_stmts_correct`, `mangling_collision` —
+   `let`, assignment, compound assignment and `while`, under the hypothesis that no identifier
+   ends in a digit (without it the statement is false: finding V26).
 -/
 namespace HmsProofs.C01VM
 open Hms.Core Hms.Core.Comp Hms.Core.VM HmsProofs.Sim
@@ -409,5 +413,165 @@ example : ∃ k, execN vmCode3 {} k vm3 = .next (reach vm3 17 k [⟨.int 6, none
     subst this
     exact ⟨"@main_x0", .int 3, rfl, rfl, by decide, by decide, rfl⟩
 end Example5
+
+/-! ## 6. `let`, assignment, `while` -/
+
+/-- **`compileStmts` on the statement fragment.** For sequences of `let x = e;`, `x = e;`,
+`x op= e;` (local `x`, pure `e`) and `while c { … }` over such statements (`Frag.okSs`), well
+scoped (`Frag.wsSs`), the Go compiler appends exactly `cSs module ss env` to the current function
+and leaves the state `updS …`: scopes, variable counters, label counters and the function's
+variable count as computed by the pure function `cSs`; the loop stack and everything else as
+before. -/
+theorem compileStmts_frag (fuel : Nat) (ss : List Stmt) (cs : CState)
+    (hs : Frag.okSs ss = true) (hd : Frag.depthSs ss ≤ fuel)
+    (hws : Frag.wsSs cs.currModule ss (envOf cs) = true) :
+    (compileStmts fuel ss).run cs =
+      ((), updS cs cs.loops (cSs cs.currModule ss (envOf cs)).1 (cSs cs.currModule ss (envOf cs)).2) := by
+  have := (compile_stmt fuel).2.1 ss cs hs hd cs.loops [] (envOf cs) hws
+  rwa [updS_self, List.nil_append] at this
+
+/-- **Mangled variable names collide** (finding V26): the first `x1` and the eleventh `x` of a
+function get the same name, hence — by `slots_injective` — the same slot. On the models: the
+program `let x1 = 100; let x = 0; …; let x = 10; println(x1)` prints `100` under the
+specification and `10` on the VM. The theorems below therefore assume that no identifier of the
+fragment ends in a digit; under that assumption names are injective (`mangleName_inj`). -/
+theorem mangling_collision : mangleName "main" "x1" 0 = mangleName "main" "x" 10 := by decide
+
+/-- **Statements on the VM.** `StRel`: level by level the specification's scopes and the
+compiler's scopes bind the same (tracked) identifiers, each mangled name's slot is a legal cell
+holding the specification's value, live names are pairwise distinct and below the current
+counters. `Good`: tracked identifiers have no trailing digit; `σ` is injective on the name set `N`
+and every name of `N` has a cell inside the memory limit. If the code of `ss` is `Placed` at `ip`
+and the relation holds, then (`SimS`): when the specification completes `ss`, only its scopes
+changed, and the VM — through all loop iterations — arrives at the end of the code with its
+operand stack as before and a memory for which the relation holds again; a fatal error is matched
+by the same fatal interrupt; the fragment never produces `break`/`continue`/`return`/`throw`. -/
+theorem stmts_correct (cfg : Cfg) (code : Code) (lim : Limits) (mod : String) (T : List String)
+    (N : String → Prop) (σ lab : String → Nat) (s : VMState) (f : Frame) (rest : List Frame)
+    (c : List (RInstr × Span)) (hcalls : s.calls = f :: rest) (hfn : findCode code f.fn = some c)
+    (hg : Good T N σ lim s.mp)
+    (fuel : Nat) (ss : List Stmt) (env : CEnv) (spec : St) (ip : Nat) (stk : List SVal) (mem : List (Int × Val))
+    (hs : Frag.okSs ss = true) (hT : ∀ x ∈ Frag.identsSs ss, x ∈ T) (hws : Frag.wsSs mod ss env = true)
+    (hN : ∀ m ∈ codeVars (cSs mod ss env).1, N m) (hpl : Placed lab σ c ip (cSs mod ss env).1)
+    (hrel : StRel mod T N σ lim s.mp env.scopes env.vm spec.scopes mem) (hheap : s.st.heap = spec.heap) :
+    SimS code lim s ip (nI (cSs mod ss env).1) stk mem
+      (StRel mod T N σ lim s.mp (cSs mod ss env).2.scopes (cSs mod ss env).2.vm) spec
+      (evalStmts cfg fuel ss spec) :=
+  (exec_stmt_all hcalls hfn hg fuel).2.1 ss env spec ip stk mem hs hT hws hN hpl hrel hheap
+
+/-- **Statements, the three passes together** (`relocateLabels`, `renameVariables`, VM). -/
+theorem compiled_stmts_correct (cfg : Cfg) (code : Code) (lim : Limits) (mod : String) (T : List String)
+    (fuel : Nat) (ss : List Stmt) (env : CEnv) (spec : St) (s : VMState) (f : Frame) (rest : List Frame)
+    (pre post : SCode) (r : NCode) (stk : List SVal) (mem : List (Int × Val))
+    (hs : Frag.okSs ss = true) (hT : ∀ x ∈ Frag.identsSs ss, x ∈ T) (hdig : ∀ x ∈ T, NoTrailingDigit x)
+    (hws : Frag.wsSs mod ss env = true)
+    (hrel : relocate (pre ++ (cSs mod ss env).1 ++ post) = some r)
+    (hpost : ∀ l ∈ definedLabels (cSs mod ss env).1, l ∉ definedLabels post)
+    (hcalls : s.calls = f :: rest) (hfn : findCode code f.fn = some (renameVars r))
+    (hframe : ∀ m ∈ varNames r, 0 ≤ s.mp - (slotFn r m : Int) ∧ s.mp - (slotFn r m : Int) < (lim.memory : Int))
+    (hst : StRel mod T (· ∈ varNames r) (slotFn r) lim s.mp env.scopes env.vm spec.scopes mem)
+    (hheap : s.st.heap = spec.heap) :
+    SimS code lim s (nI pre) (nI (cSs mod ss env).1) stk mem
+      (StRel mod T (· ∈ varNames r) (slotFn r) lim s.mp (cSs mod ss env).2.scopes (cSs mod ss env).2.vm)
+      spec (evalStmts cfg fuel ss spec) :=
+  Sim.compiled_stmts_correct cfg code lim mod T fuel ss env spec s f rest pre post r stk mem hs hT hdig hws hrel
+    hpost hcalls hfn hframe hst hheap
+
+section Example6
+private def idn (x : String) : Expr := .ident sp0 .int x false false false
+/-- `let i = 0; let acc = 0; while i < 4 { acc += i; i += 1; }` -/
+def loopEx : List Stmt :=
+  [ .letS sp0 "i" .int false .int (.int sp0 0),
+    .letS sp0 "acc" .int false .int (.int sp0 0),
+    .whileS sp0 (.infix sp0 .bool .lt (idn "i") (.int sp0 4))
+      (.mk sp0 .null
+        [ .exprS sp0 (.assign sp0 (some .add) (idn "acc") (idn "i")),
+          .exprS sp0 (.assign sp0 (some .add) (idn "i") (.int sp0 1)) ] none) ]
+private def envL : CEnv := ⟨[[]], [], [], 0⟩
+private def csL : CState :=
+  { fns := [(("main", "main"), { name := "@main_main", code := [(.addMp 4, sp0)] })],
+    currFn := "main", currModule := "main" }
+private def symL : SCode :=
+  [(.addMp 4, sp0)] ++ (cSs "main" loopEx envL).1 ++
+    [(.label "main_cleanup0", sp0), (.addMp (-4), sp0), (.ret, sp0)]
+private def relL : NCode := (stripLabels symL).map (resolve (labelIndex symL))
+private def codeL : Code := [{ name := "@main_main", code := renameVars relL }]
+private def vmL : VMState := { calls := [⟨"@main_main", 1⟩], mp := 4 }
+private def TL : List String := ["i", "acc"]
+
+example : Frag.okSs loopEx = true ∧ Frag.depthSs loopEx ≤ 10 ∧ Frag.wsSs "main" loopEx envL = true := by
+  decide +kernel
+
+/-- The real compiler run produces `cSs …` (statement instantiated). -/
+example : (((compileStmts 10 loopEx).run csL).2.fns.lookup ("main", "main")).map (·.code) =
+    some ([(.addMp 4, sp0)] ++ (cSs "main" loopEx envL).1) := by
+  rw [compileStmts_frag 10 loopEx csL (by decide +kernel) (by decide +kernel) (by decide +kernel)]
+  rfl
+
+private theorem relocate_symL : relocate symL = some relL := by
+  have h : (relocate symL).isSome = true := by decide +kernel
+  obtain ⟨r, hr⟩ := Option.isSome_iff_exists.mp h
+  rw [hr, relocate_some symL r hr]
+  rfl
+
+private def isInt (n : Int) : Val → Bool
+  | .int i => i.toInt == n
+  | _ => false
+private def okU : Except Ctl Unit → Bool
+  | .ok _ => true
+  | _ => false
+
+/-- The specification: the loop ends normally with `acc = 6`. -/
+private theorem spec_facts : okU (evalStmts { prog := [] } 16 loopEx {}).1 = true ∧
+    ((lookupScopes "acc" (evalStmts { prog := [] } 16 loopEx {}).2.scopes).map (isInt 6)) = some true := by
+  decide +kernel
+
+/-- The VM, running the relocated and renamed code from instruction 1 with an empty memory,
+reaches the end of the loop (instruction 18) with `6` in the cell of `acc` (slot 1: cell
+`mp - 1 = 3`), after five evaluations of the condition and four passes through the body. -/
+example : ∃ k mem', execN codeL {} k vmL = .next (reach vmL 18 k [] mem') ∧
+    ∃ i : I64, mem'.lookup 3 = some (.int i) ∧ i.toInt = 6 := by
+  have hst : StRel "main" TL (· ∈ varNames relL) (slotFn relL) {} vmL.mp envL.scopes envL.vm
+      ({} : St).scopes [] :=
+    ⟨⟨fun _ _ => trivial, trivial⟩, by decide +kernel, by decide +kernel, by
+      intro sc hsc p hp; simp [envL] at hsc; subst hsc; simp at hp⟩
+  have h1 : Frag.okSs loopEx = true := by decide +kernel
+  have h2 : ∀ x ∈ Frag.identsSs loopEx, x ∈ TL := by decide +kernel
+  have h3 : ∀ x ∈ TL, NoTrailingDigit x := by decide +kernel
+  have h4 : Frag.wsSs "main" loopEx envL = true := by decide +kernel
+  have h5 : ∀ l ∈ definedLabels (cSs "main" loopEx envL).1,
+      l ∉ definedLabels [((Instr.label "main_cleanup0" : SInstr), sp0), (.addMp (-4), sp0), (.ret, sp0)] := by
+    decide +kernel
+  have h6 : findCode codeL (⟨"@main_main", 1⟩ : Frame).fn = some (renameVars relL) := by
+    simp [findCode, codeL]
+  have h7 : ∀ m ∈ varNames relL, 0 ≤ vmL.mp - (slotFn relL m : Int) ∧
+      vmL.mp - (slotFn relL m : Int) < ((({} : Limits).memory : Nat) : Int) := by decide +kernel
+  have h := compiled_stmts_correct { prog := [] } codeL {} "main" TL 16 loopEx envL {} vmL
+    ⟨"@main_main", 1⟩ [] [(.addMp 4, sp0)] [(.label "main_cleanup0", sp0), (.addMp (-4), sp0), (.ret, sp0)]
+    relL [] [] h1 h2 h3 h4 relocate_symL h5 rfl h6 h7 hst rfl
+  obtain ⟨hok, hacc⟩ := spec_facts
+  rcases hev : evalStmts { prog := [] } 16 loopEx {} with ⟨res, st'⟩
+  rw [hev] at h hok hacc
+  cases res with
+  | error e => simp [okU] at hok
+  | ok u =>
+    obtain ⟨_, mem', hrun, hrel'⟩ := h
+    have hlk := hrel'.scopes.lookup TL (slotFn relL) {} vmL.mp "acc" (by decide)
+    have hρ : ρS (cSs "main" loopEx envL).2.scopes "acc" = some "@main_acc0" := by decide +kernel
+    rw [hρ] at hlk
+    simp only at hacc
+    cases hv : lookupScopes "acc" st'.scopes with
+    | none => simp [hv] at hacc
+    | some v =>
+      rw [hv] at hlk hacc
+      simp only [Option.map_some, Option.some.injEq] at hacc
+      obtain ⟨⟨_, _, hmem⟩, _⟩ := hlk
+      obtain ⟨k, hk⟩ := hrun.from_state (f := ⟨"@main_main", 1⟩) rfl
+      have hslot : vmL.mp - (slotFn relL "@main_acc0" : Int) = 3 := by decide +kernel
+      rw [hslot] at hmem
+      refine ⟨k, mem', hk, ?_⟩
+      cases v <;> simp [isInt] at hacc
+      exact ⟨_, hmem, hacc⟩
+end Example6
 
 end HmsProofs.C01VM
